@@ -797,6 +797,7 @@ func runC12(c *Ctx) {
 		ob := c.Obl("R7", fname(f), "lock balance on every path", 1)
 		la.lockBalance(ob, f)
 	}
+	r.readLoopEndRules(c, true, "R8")
 	_ = sentConn
 	_ = strings.Join
 }
@@ -1311,6 +1312,7 @@ func runC11(c *Ctx) {
 		ob := c.Obl("R8", fname(f), "lock balance on every path", 1)
 		la.lockBalance(ob, f)
 	}
+	r.readLoopEndRules(c, false, "R9")
 	// byte-identical, in-order delivery inside a connection is the packet buffer's job: its integrity rules (C06) are part of this property
 	c.RulePrefix = "B."
 	runC06(c)
@@ -1417,4 +1419,313 @@ func isPayloadBuffer(v ssa.Value) bool {
 		return false
 	}
 	return rec(v, 0)
+}
+
+// pathNilTests lists the nil comparisons decided on the path before index upto: the compared value as seen on the
+// path (helper parameters bound, phis resolved) and whether the path took the "is nil" edge.
+type pathNilTest struct {
+	V     ssa.Value
+	IsNil bool
+	At    int
+}
+
+func pathNilTests(p *upath, upto int) []pathNilTest {
+	var out []pathNilTest
+	ci := 0
+	for j, in := range p.Instrs {
+		if upto >= 0 && j >= upto {
+			break
+		}
+		if _, isIf := in.(*ssa.If); !isIf {
+			continue
+		}
+		my := ci
+		ci++
+		if my >= len(p.Conds) {
+			break
+		}
+		ft := p.Conds[my]
+		v, eq, ok := nilCmpOf(ft.Cond)
+		if !ok {
+			continue
+		}
+		out = append(out, pathNilTest{p.valueAt(v, j), eq == ft.Val, j})
+	}
+	return out
+}
+
+// socketReadErr: v is the error result of a read of the shared socket (a method named Read* that is not the
+// package's own, returning an error last).
+func socketReadErr(v ssa.Value) (*ssa.Call, bool) {
+	ex, ok := v.(*ssa.Extract)
+	if !ok {
+		return nil, false
+	}
+	call, ok := ex.Tuple.(*ssa.Call)
+	if !ok {
+		return nil, false
+	}
+	name := ""
+	if call.Call.IsInvoke() {
+		name = call.Call.Method.Name()
+	} else if sc := call.Call.StaticCallee(); sc != nil && pkgOf(sc) != "udp" {
+		name = sc.Name()
+	}
+	if !strings.HasPrefix(name, "Read") {
+		return nil, false
+	}
+	res := call.Call.Signature().Results()
+	if res.Len() == 0 || ex.Index != res.Len()-1 || res.At(res.Len()-1).Type().String() != "error" {
+		return nil, false
+	}
+	return call, true
+}
+
+// readLoopEndRules: the read loop of the listener (readLoop with read/readBatch inlined) ends only on the failure edge
+// of a read of the socket (C11: a listener that was closed keeps delivering to its accepted conns; no other
+// condition ends the loop), and on every such path the failing read's error - known not to be nil - is stored in
+// the field Accept reports after the loop's completion channel is closed (C12: Accept fails, never (nil, nil)).
+func (r *udpRoles) readLoopEndRules(c *Ctx, wantStore bool, id string) {
+	title := "the read loop returns only on the failure edge of a read of the shared socket (closing the listener, a refused or overflowing datagram do not end it: accepted conns keep receiving)"
+	if wantStore {
+		title = "a failed Accept reports an error: without a conn Accept returns a sentinel or the read loop's error, which every terminating path of the read loop stores - the failing read's error, not nil - before the completion channel Accept waits on is closed"
+	}
+	o := c.Obl(id, fname(r.readLoop), title, 2)
+	saved := unitExclude
+	ex := map[*ssa.Function]bool{}
+	for f := range saved {
+		ex[f] = true
+	}
+	for _, rd := range r.readers {
+		delete(ex, rd)
+	}
+	unitExclude = ex
+	defer func() { unitExclude = saved }()
+
+	// the error field Accept reports: the value returned without a conn that is loaded from a listener field
+	errField := ""
+	var doneField string
+	accPaths, aok := enumPathsU(r.Accept, 4000)
+	if !aok {
+		o.Undecide("paths of Accept not enumerable")
+		return
+	}
+	fieldOfLoad := func(v ssa.Value) string {
+		v = origin(v)
+		if ex, ok := v.(*ssa.Extract); ok {
+			v = origin(ex.Tuple)
+		}
+		if ta, ok := v.(*ssa.TypeAssert); ok {
+			v = origin(ta.X)
+		}
+		if call, ok := v.(*ssa.Call); ok && callName(call) == "(*sync/atomic.Value).Load" {
+			if fr, ok := asFieldAddr(call.Call.Args[0]); ok && fr.SName == r.LT {
+				return fr.Field
+			}
+		}
+		if fr, ok := asFieldLoad(v); ok && fr.SName == r.LT {
+			return fr.Field
+		}
+		return ""
+	}
+	// the completion channel: closed (deferred) by the read loop
+	var closeDone ssa.Instruction
+	deferred := false
+	instrsOfU(r.readLoop, func(in ssa.Instruction) {
+		ci, ok := in.(ssa.CallInstruction)
+		if !ok {
+			return
+		}
+		if b, ok := ci.Common().Value.(*ssa.Builtin); !ok || b.Name() != "close" {
+			return
+		}
+		if fr, ok := asFieldLoad(ci.Common().Args[0]); ok && fr.SName == r.LT {
+			doneField = fr.Field
+			closeDone = in
+			_, deferred = in.(*ssa.Defer)
+		}
+	})
+	if wantStore {
+		for i := range accPaths {
+			p := &accPaths[i]
+			ret, ok := p.last().(*ssa.Return)
+			if !ok || len(ret.Results) != 2 {
+				continue
+			}
+			idx := len(p.Instrs) - 1
+			conn := strip(p.valueAt(ret.Results[0], idx))
+			ev := p.valueAt(ret.Results[1], idx)
+			if !isNilConst(conn) {
+				continue
+			}
+			o.Site(ret.Pos(), "Accept fails")
+			if isNilConst(strip(ev)) {
+				o.Fail(ret.Pos(), "Accept returns neither a conn nor an error")
+				continue
+			}
+			if isSentinelErr(c.P, ev) || neverNilCall(strip(ev)) {
+				continue
+			}
+			f := fieldOfLoad(ev)
+			if f == "" {
+				o.Fail(ret.Pos(), "Accept fails with a value that is not known to be an error (not a sentinel, not the read loop's stored error): it may be nil")
+				continue
+			}
+			errField = f
+			// the path has received from the read loop's completion channel
+			recv := false
+			for j, in := range p.Instrs {
+				switch x := in.(type) {
+				case *ssa.Select:
+					k := selCaseOnPathAt(p, x, j)
+					if k >= 0 && k < len(x.States) {
+						if fr, ok := asFieldLoad(x.States[k].Chan); ok && fr.SName == r.LT && fr.Field == doneField && doneField != "" {
+							recv = true
+						}
+					}
+				case *ssa.UnOp:
+					if x.Op == token.ARROW {
+						if fr, ok := asFieldLoad(x.X); ok && fr.SName == r.LT && fr.Field == doneField && doneField != "" {
+							recv = true
+						}
+					}
+				}
+			}
+			if !recv {
+				o.Fail(ret.Pos(), "Accept reports the read loop's error on a path that has not seen the read loop end: the error may still be unset (nil)")
+			}
+		}
+		if errField != "" && closeDone == nil {
+			o.Undecide("the completion channel of the read loop is not closed in %s", fname(r.readLoop))
+			return
+		}
+	}
+	paths, pok := enumIterPathsU(r.readLoop, 20000)
+	if !pok {
+		o.Undecide("paths of the read loop not enumerable")
+		return
+	}
+	nRet := 0
+	seenFail := map[token.Pos]bool{}
+	for i := range paths {
+		p := &paths[i]
+		if p.Loop {
+			continue
+		}
+		ret, ok := p.last().(*ssa.Return)
+		if !ok {
+			continue
+		}
+		nRet++
+		var readErr ssa.Value
+		var readCall *ssa.Call
+		for _, t := range pathNilTests(p, -1) {
+			if call, ok := socketReadErr(t.V); ok && !t.IsNil {
+				readErr, readCall = t.V, call
+			}
+		}
+		// the return as written: the last return instruction of the path before the loop function's own
+		where := ret.Pos()
+		for j := len(p.Instrs) - 1; j >= 0; j-- {
+			if rr, ok := p.Instrs[j].(*ssa.Return); ok && rr.Pos().IsValid() {
+				where = rr.Pos()
+				if rr.Parent() != r.readLoop {
+					break
+				}
+			}
+		}
+		if readErr == nil {
+			if !wantStore && !seenFail[where] {
+				seenFail[where] = true
+				o.Fail(where, "the read loop can end on a path on which no read of the socket failed: datagrams for the accepted conns are no longer dispatched")
+			}
+			continue
+		}
+		o.Site(readCall.Pos(), "loop ends after the failing %s", callName(readCall))
+		if !wantStore || errField == "" {
+			continue
+		}
+		stored := false
+		for j, in := range p.Instrs {
+			if in == closeDone && !deferred && !stored {
+				break
+			}
+			var val ssa.Value
+			switch x := in.(type) {
+			case *ssa.Call:
+				if callName(x) == "(*sync/atomic.Value).Store" {
+					if fr, ok := asFieldAddr(p.valueAt(x.Call.Args[0], j)); ok && fr.SName == r.LT && fr.Field == errField {
+						val = x.Call.Args[1]
+					}
+				}
+			case *ssa.Store:
+				if fr, ok := asFieldAddr(p.valueAt(x.Addr, j)); ok && fr.SName == r.LT && fr.Field == errField {
+					val = x.Val
+				}
+			}
+			if val == nil {
+				continue
+			}
+			sv := p.valueAt(strip(p.valueAt(val, j)), j)
+			if sv == readErr || neverNilCall(strip(sv)) {
+				stored = true
+			} else {
+				for _, t := range pathNilTests(p, j) {
+					if t.V == sv && !t.IsNil {
+						stored = true
+					}
+				}
+			}
+		}
+		if !stored && !seenFail[where] {
+			seenFail[where] = true
+			o.Fail(where, "the read loop can end without having stored a non-nil error in %s.%s: an Accept woken by the end of the loop returns (nil, nil)", r.LT, errField)
+		}
+	}
+	if nRet == 0 {
+		o.Undecide("no terminating path of the read loop found")
+	}
+}
+
+// isSentinelErr: v is the value of a package-level error variable that is initialised once with errors.New or
+// fmt.Errorf and assigned nowhere else.
+func isSentinelErr(p *Prog, v ssa.Value) bool {
+	u, ok := origin(v).(*ssa.UnOp)
+	if !ok || u.Op != token.MUL {
+		return false
+	}
+	g, ok := u.X.(*ssa.Global)
+	if !ok || g.Pkg == nil {
+		return false
+	}
+	initFn := g.Pkg.Func("init")
+	okInit := false
+	for _, f := range p.Funcs {
+		if f.Pkg != g.Pkg {
+			continue
+		}
+		bad := false
+		instrsOf(f, func(in ssa.Instruction) {
+			st, ok := in.(*ssa.Store)
+			if !ok || st.Addr != ssa.Value(g) {
+				return
+			}
+			if f == initFn && neverNilCall(strip(st.Val)) {
+				okInit = true
+			} else {
+				bad = true
+			}
+		})
+		if bad {
+			return false
+		}
+	}
+	if !okInit && initFn != nil {
+		instrsOf(initFn, func(in ssa.Instruction) {
+			if st, ok := in.(*ssa.Store); ok && st.Addr == ssa.Value(g) && neverNilCall(strip(st.Val)) {
+				okInit = true
+			}
+		})
+	}
+	return okInit
 }
